@@ -105,6 +105,31 @@ def _min_slack_int(need, sel, k, ub, best_total):
     return (best[0], found[0]) if found[0] is not None else (None, None)
 
 
+def mpe_opt_pool(cols, f, scale, pool, max_used, F):
+    """integer MPE optimum when every route takes a distinct entry of `pool` as weight and at most max_used routes are used"""
+    n = len(cols)
+    m = len(f)
+    best = None
+    wit = None
+    pool = list(pool)
+    for r in range(0, min(max_used, len(pool)) + 1):
+        for idxs in itertools.combinations(range(len(pool)), r):
+            for routes in itertools.product(range(n), repeat=r):
+                sel = [cols[j] for j in routes]
+                ws = [pool[i] for i in idxs]
+                need = [scale[j] * abs(f[j] - sum(w * c[j] for c, w in zip(sel, ws))) for j in range(m)]
+                if r == 0:
+                    if all(x <= 1e-9 for x in need):
+                        tot, rho = 0, []
+                    else:
+                        continue
+                else:
+                    tot, rho = _min_slack_int(need, sel, r, max(1, r) * max(F, max(pool)) + 1, best)
+                if tot is not None and (best is None or tot < best):
+                    best, wit = tot, {"routes": list(routes), "weights": ws, "slacks": rho}
+    return (float(best) if best is not None else None), wit
+
+
 def mpe_opt(cols, f, scale, k, wtype, F, factors=None, tuple_ok=None):
     """min total slack: routes (with repetition), weights w_i >= 0 and slacks rho_i >= 0 with, for every element,
     |f_e - sum_i w_i x_i(e)| * scale_e <= sum_i rho_i * factor_i * x_i(e).  factors: optional per-route slack factor
